@@ -44,6 +44,11 @@ CHECKS = {
             "admits a (cell,row) pair only under an orientation-compatibility test of that pair; commits use only admitted candidates; orientation stores come from the row the cell is placed on; the checker rejects INVALID.",
             "Trusted: clang 14 front end; rules/orientation_spec.json; the list of admission predicates in cqverif/rules/c04.py. Not decided: which admissible row is chosen.",
             "DESIGN.md 2/C04"),
+    "C20": ("name-correspondence analysis of the clang-resolved binding table (module.cpp parsed against a pybind11 stub and the real header), Python ast receiver typing, writer/reader key and expression-shape agreement",
+            "The binding clause is decided whole: each of the ~140 Python-visible names is bound to the resolved C++ entity of the same name and class. "
+            "The round-trip clause is decided by its structural conditions: the writer emits every record, raw geometry that the reader inverts exactly, and orientations by name.",
+            "Trusted: clang 14 front end; the pybind11 stub's fidelity to the call shapes module.cpp uses; Python's ast module. Not decided: stream formatting of values outside the property's domain.",
+            "DESIGN.md 2/C20"),
 }
 
 NOT_APPLICABLE = {
